@@ -380,6 +380,9 @@ def check(ctx: Ctx) -> str:
     for p, sk in res["visit_NSRef"]:
         ctx.check("[" in sk.text and "." not in sk.text.strip(), "nsref:item", "compiler:CodeGenerator.visit_NSRef", "item store", f"visit_NSRef must emit ref[attr], got {sk.text.strip()}", "src/jinja2/compiler.py")
     ns = repo.cls("utils:Namespace")
+    ctx.check("__setitem__" in ns.methods and "self.__attrs[name] = value" in ast.unparse(ns.methods["__setitem__"]).replace("_Namespace__attrs", "__attrs"), "Namespace.__setitem__", "utils:Namespace", "item store writes attrs", "Namespace.__setitem__ must store into the namespace's attribute dict", ns.loc())
+
+    ctx.rule("R8", "a namespace owns its storage: Namespace.__init__ stores a dict created there on every path (`namespace(d)` copies d), so a checked dotted assignment never reaches an object of the render data")
     # the check above keeps dotted assignments on Namespace objects only; that protects the
     # render data only if a namespace stores into a dict of its own: `namespace(d)` copies d
     ni = ns.methods.get("__init__")
@@ -390,7 +393,6 @@ def check(ctx: Ctx) -> str:
         ctx.check(astq.fresh_container(ni, a.value), f"Namespace.__init__:private:{ast.unparse(a.value)[:30]}", "utils:Namespace.__init__", f"attribute dict `{ast.unparse(a.value)[:50]}` may be the caller's object",
                   f"Namespace.__init__ stores `{ast.unparse(a.value)}` as its attribute dict: unless that is a new dict on every path, `{{% set ns = namespace(d) %}}{{% set ns.x = 1 %}}` passes the Namespace check and writes into the dict `d` of the render data (also in the immutable sandbox)",
                   f"src/jinja2/utils.py:{a.lineno}")
-    ctx.check("__setitem__" in ns.methods and "self.__attrs[name] = value" in ast.unparse(ns.methods["__setitem__"]).replace("_Namespace__attrs", "__attrs"), "Namespace.__setitem__", "utils:Namespace", "item store writes attrs", "Namespace.__setitem__ must store into the namespace's attribute dict", ns.loc())
 
     ctx.rule("R6", "missing never escapes: visit_Name writes the bare reference for a load only when it is a declared, already bound parameter; every other load is `undefined(name=...) if ref is missing else ref`; enter_frame initialises every load target")
     n = 0
@@ -408,6 +410,18 @@ def check(ctx: Ctx) -> str:
         else:
             ctx.ok(f"guarded:{n}")
     ctx.floor("visit_Name load paths", n, 4)
+    # "already bound": a macro parameter counts as bound only once its own default has been
+    # emitted - while `{% macro m(x=x) %}` compiles the default, `x` is still possibly missing
+    # and the load needs the check.  In macro_body's loop over the parameters the call that
+    # marks the parameter as stored comes after everything that visits its default.
+    mbf = repo.func("compiler:CodeGenerator.macro_body")
+    ploops = [l_ for l_ in ast.walk(mbf.node) if isinstance(l_, ast.For) and any(astq.callee(c) == "self.mark_parameter_stored" for c in astq.calls(l_))]
+    ctx.need(len(ploops) == 1, "macro_body: the loop marking parameters as stored was not found")
+    marks = [c for c in astq.calls(ploops[0]) if astq.callee(c) == "self.mark_parameter_stored"]
+    visits_ = [c for c in astq.calls(ploops[0]) if astq.callee(c) == "self.visit"]
+    ctx.check(len(marks) == 1 and bool(visits_) and all((v_.lineno, v_.col_offset) < (marks[0].lineno, marks[0].col_offset) for v_ in visits_) and not astq.guard_atoms(ploops[0], marks[0]), "macro_body:stored-after-default", "compiler:CodeGenerator.macro_body", "parameter marked as stored before its default is compiled",
+              "macro_body calls mark_parameter_stored(ref) before (or only on some path after) the parameter's default expression is visited: inside `{% macro m(x=x) %}` the default then reads the bare local, and a call without that argument passes the internal `missing` sentinel on as the value (printed as `missing`, `is defined` is true, StrictUndefined does not raise)",
+              mbf.loc(marks[0]) if marks else mbf.loc())
     ef = repo.func("compiler:CodeGenerator.enter_frame")
     consts = {repo.const(f"idtracking:{c}") for c in ("VAR_LOAD_PARAMETER", "VAR_LOAD_RESOLVE", "VAR_LOAD_ALIAS", "VAR_LOAD_UNDEFINED")}
     arms = {ast.unparse(n_.test.comparators[0]) for n_ in ast.walk(ef.node) if isinstance(n_, ast.If) and isinstance(n_.test, ast.Compare) and ast.unparse(n_.test.left) == "action"}
